@@ -195,7 +195,8 @@ def step (st : WSt) (ws : List String) : Option (WSt × String) :=
           | "pub", t :: content :: _ =>
             let tn := if isUser t then p2pKey a.uid t else t
             if isUser t ∧ t = a.uid then some (c0.emit a.sid (ctrl 403 tn)) else
-            if isChanT then some (c0.opPubC a tn content (parseHead (kvGet m "head")) (kvGet m "noecho" = "1")) else
+            -- {pub} does not check the spelling: a group topic which is not a channel serves it like any other publish
+            if st.w.isChanTopic tn then some (c0.opPubC a tn content (parseHead (kvGet m "head")) (kvGet m "noecho" = "1")) else
             some (c0.opPub a tn content (parseHead (kvGet m "head")) (kvGet m "noecho" = "1"))
           | "note", t :: what :: seq :: _ =>
             if isUser t then (decInt seq).map (fun q => c0.opNoteP2P a t what q)
